@@ -235,3 +235,19 @@ _ADDR7 = (" R02.8: every type predicate that the dispatch simulation replaces by
           "result cases.")
 EXPLANATION += _ADDR7
 LEVEL_TEXT += _ADDR7
+
+
+_run_before_r7s = run
+
+
+def run(repo, rep, tier):  # noqa: F811 -- round-7 remedies / borrowings
+    _run_before_r7s(repo, rep, tier)
+    if getattr(rep, "borrowed", False):
+        return
+    from ..core import round7 as _r7s
+    _r7s.nullability_on_substituted_type(repo, rep, "R05.17")
+
+
+_ADD_R7S = ' Borrowed: R05.17 (the None guard / omit_none of a TypeVar field follows the substituted type).'
+EXPLANATION += _ADD_R7S
+LEVEL_TEXT += _ADD_R7S
